@@ -546,10 +546,12 @@ def execute(scenario, tape=None, keep_events=False):
         parsed = frames.parse_stream(out, magic)
         if any(x[0] == "error" for x in parsed):
             viols.append(Violation("reply-malformed", f"peer={i}", repr(parsed[-1])))
-        got = [(x[2].rstrip(b"\x00"), x[3]) for x in parsed if x[0] == "msg"]
-        if not got or got[0][0] != b"version":
-            viols.append(Violation("reply-missing", f"peer={i} own-version", ""))
-        got = got[1:]
+        allsent = [(x[2].rstrip(b"\x00"), x[3]) for x in parsed if x[0] == "msg"]
+        # the property speaks about veracks and pongs; whatever else the node chooses to send
+        # (its own version, getaddr, sendheaders, ...) is not constrained by it
+        got = [m_ for m_ in allsent if m_[0] in (b"verack", b"pong")]
+        if len(allsent) - len(got) > 1:
+            probes.hit("stat-node-sent-other-messages", len(allsent) - len(got) - 1)
         exp = []
         for cmd, payload, _, j in R:
             if cmd == b"version":
@@ -658,16 +660,18 @@ def _diff_replies(i, got, exp, nonce_owner):
         else:
             name = "verack" if item[0] == b"verack" else f"pong nonce={item[1].hex()}"
             out.append(Violation("reply-missing", f"peer={i} {name}", f"got={got!r}"))
+    missing_pong = any(v.clause == "reply-missing" and "pong" in v.key for v in out)
     for item in g:
         if item[0] == b"pong" and item[1] in nonce_owner and nonce_owner[item[1]][0] != i:
             out.append(Violation("reply-wrong-peer", f"peer={i} pong nonce={item[1].hex()}", f"belongs to peer {nonce_owner[item[1]][0]}"))
         elif item[0] == b"pong" and item[1] not in nonce_owner:
-            out.append(Violation("reply-wrong-nonce", f"peer={i} pong nonce={item[1].hex()}", ""))
+            if missing_pong:
+                out.append(Violation("reply-wrong-nonce", f"peer={i} pong nonce={item[1].hex()}", ""))
+            # (an unsolicited pong while every ping was answered correctly is not constrained by the property)
         elif item in exp:
             out.append(Violation("duplicate", f"peer={i} reply {item[0].decode()}", f"got={got!r}"))
-        else:
-            out.append(Violation("reply-unexpected", f"peer={i} {item[0]!r}", f"got={got!r}"))
-    if not out:
+        # (an unsolicited verack - no version was received for it - is not constrained either)
+    if not out and [x for x in got if x in exp] != exp:
         out.append(Violation("order", f"peer={i} replies", f"got={got!r} exp={exp!r}"))
     return out
 
